@@ -2,23 +2,30 @@
 (***************************************************************************)
 (* C19 - EYAML key rotation (yamlpath/commands/eyaml_rotate_keys.py:113-   *)
 (* 200 driving yamlpath/eyaml/eyamlprocessor.py) as a step machine over    *)
-(* the scalar positions of one YAML file.                                  *)
+(* the scalar positions of the YAML files of ONE invocation.               *)
 (*                                                                         *)
-(* A document is  [slots, objs]:                                           *)
+(* A document (one file) is  [slots, objs]:                                *)
 (*   slots[p] = [cont, ct, o]   the p-th scalar position in document order:*)
 (*              the container holding it (an id), that container's type    *)
 (*              ("map" | "seq") and the value object found there;          *)
-(*   objs[o]  = [head, key, pt, anc, folded]   a value object (a CELL):    *)
+(*   objs[o]  = [head, key, pt, anc, folded, trail]   a value object       *)
+(*              (a CELL):                                                  *)
 (*              head   the first characters of its text,                   *)
 (*              key    "old" | "new" | "other" (a third key pair) |        *)
 (*                     "none" (not a token of the cipher),                 *)
-(*              pt     the identity of its plaintext,                      *)
+(*              pt     the identity of its plaintext (> 0),                *)
 (*              anc    its anchor name ("" = none); positions that share   *)
 (*                     one object are the anchor and its aliases,          *)
-(*              folded it is a folded block scalar (">").                  *)
-(* The state keeps the heap of value objects (Store allocates new ones),   *)
-(* the binding position -> object, the control state of the loops and the  *)
-(* bookkeeping the properties talk about.                                  *)
+(*              folded it is a folded block scalar (">"),                  *)
+(*              trail  shape of the plaintext's end: "" (ends in a         *)
+(*                     non-blank), "ws" (ends in white space), "allws"     *)
+(*                     (nothing but white space), "empty".                 *)
+(* The state is the invocation (files, --backup, exit status, index of the *)
+(* file being processed, the closed files) plus the file being processed:  *)
+(* its heap of value objects (Store allocates new ones), the binding       *)
+(* position -> object, the control state of the loops (seen_anchors among  *)
+(* them, which is PER FILE: eyaml_rotate_keys.py:119) and the bookkeeping  *)
+(* the properties talk about.                                              *)
 (*                                                                         *)
 (* Pure functional core (DESIGN 2.2):  Expect(s) is the set of events the  *)
 (* specification accepts in s (complete event records, so a rejection can  *)
@@ -28,6 +35,8 @@
 (*                                                                         *)
 (* Events, each bound to an observation of the real run (harness/props/    *)
 (* c19.py):                                                                *)
+(*   NextFile the loop loads its next YAML_FILE (:116-137); closes the     *)
+(*            previous file and resets the per-file state                  *)
 (*   Find     find_eyaml_paths() yielded its next path        (:141)       *)
 (*   Node     get_nodes(path) yielded a position; anc = its anchor (:145)  *)
 (*            - SkipSeenAnchor when anc was seen before (:151-155)         *)
@@ -40,38 +49,52 @@
 (***************************************************************************)
 EXTENDS YText
 
-CONSTANT FixedStore  \* TRUE : Store replaces every reference to the shared value (what the property demands)
-                     \* FALSE: Store as Processor._update_node.recurse does it today (processor.py:2673-2737):
-                     \*        a reference held by a sequence is replaced only when that sequence is the
-                     \*        parent of the position being set
+CONSTANTS
+  FixedStore,  \* TRUE : Store replaces every reference to the shared value (what the property demands)
+               \* FALSE: Store as Processor._update_node.recurse did it in the pinned code: a reference held by a
+               \*        sequence is replaced only when that sequence is the parent of the position being set
+  FixedOutput, \* TRUE : the plaintext the command printed is taken as it is (what the property demands)
+               \* FALSE: as eyamlprocessor.py:167-173 reads it - .rstrip(): white space at the end of the plaintext
+               \*        is lost, a plaintext of nothing but white space counts as a failed decryption
+  ResetSeen    \* TRUE : seen_anchors starts empty for every file (:119); FALSE: it leaks into the next file
 
 (* marker recognition, eyamlprocessor.py:379-395 *)
 IsEyaml(text) == StartsWith(Replace(Replace(text, "\n", ""), " ", ""), "ENC[")
-Enc(o) == o.enc          \* computed once per value object (RInit, StoreHeap) from its text
+Enc(o) == o.enc          \* computed once per value object (LoadHeap, StoreHeap) from its text
 NewHead == "ENC[PKCS7,"  \* what the external command's output begins with
 NewEnc == IsEyaml(NewHead)
 
 MinOf(S) == CHOOSE x \in S : \A y \in S : x <= y
+EmptyDoc == [slots |-> <<>>, objs |-> <<>>]
 
+\* these work for the state (its current file) and for a closed file record alike
 NPos(s)    == Len(s.doc.slots)
 Slot(s, p) == s.doc.slots[p]
 Obj(s, p)  == s.heap[s.bind[p]]
 Obj0(s, p) == s.heap[s.doc.slots[p].o]      \* the heap only grows: the first Len(doc.objs) entries are the originals
 
-RInit(doc, backup) ==
-  [pc |-> "scan", doc |-> doc, backup |-> backup,
-   heap |-> [i \in 1..Len(doc.objs) |-> [head |-> doc.objs[i].head, key |-> doc.objs[i].key, pt |-> doc.objs[i].pt,
-                                          anc |-> doc.objs[i].anc, folded |-> doc.objs[i].folded, cell |-> i,
-                                          enc |-> IsEyaml(doc.objs[i].head)]],
-   bind |-> [p \in 1..Len(doc.slots) |-> doc.slots[p].o],
+LoadHeap(doc) == [i \in 1..Len(doc.objs) |-> [head |-> doc.objs[i].head, key |-> doc.objs[i].key, pt |-> doc.objs[i].pt,
+                                               anc |-> doc.objs[i].anc, folded |-> doc.objs[i].folded,
+                                               trail |-> doc.objs[i].trail, cell |-> i, enc |-> IsEyaml(doc.objs[i].head)]]
+LoadBind(doc) == [p \in 1..Len(doc.slots) |-> doc.slots[p].o]
+Zeros(doc)    == [i \in 1..Len(doc.objs) |-> 0]
+
+RInit(files, backup) ==
+  [pc |-> "scan", files |-> files, backup |-> backup, status |-> 0,
+   fi |-> 0,         \* index of the file being processed (0 = none yet)
+   done |-> <<>>,    \* the closed files: [doc, heap, bind, ndec, nenc, changed, backed, written]
+   doc |-> EmptyDoc, heap |-> <<>>, bind |-> <<>>,
    cur |-> 0,        \* position the path generator stands at (0 = before the first)
    panc |-> "",      \* the anchor name the current path ends in ("[&name]"), "" when it ends in a key or an index
    last |-> 0,       \* last position get_nodes yielded for the current path
    tgt |-> 0,        \* position being rotated
    seen |-> {},      \* seen_anchors
    buf |-> 0, fmt |-> "",      \* decrypted plaintext and the output format chosen (:170-172)
-   changed |-> FALSE, status |-> 0, backed |-> FALSE, written |-> FALSE,
-   ndec |-> [i \in 1..Len(doc.objs) |-> 0], nenc |-> [i \in 1..Len(doc.objs) |-> 0]]
+   changed |-> FALSE, backed |-> FALSE, written |-> FALSE,
+   ndec |-> <<>>, nenc |-> <<>>]
+
+Closed(s) == [doc |-> s.doc, heap |-> s.heap, bind |-> s.bind, ndec |-> s.ndec, nenc |-> s.nenc,
+              changed |-> s.changed, backed |-> s.backed, written |-> s.written]
 
 (* ---- the two lazy generators ---- *)
 \* positions the current path still has to yield (eyamlprocessor.py:73-88: a sequence element that has an
@@ -82,11 +105,17 @@ Pending(s) ==
   ELSE {p \in 1..NPos(s) : p > s.last /\ Slot(s, p).cont = Slot(s, s.cur).cont /\ Obj(s, p).anc = s.panc}
 \* encrypted positions the path generator has not reached yet (evaluated on the document as it is now)
 Ahead(s) == {p \in 1..NPos(s) : p > s.cur /\ Enc(Obj(s, p))}
-ScanDone(s) == s.pc = "scan" /\ Pending(s) = {} /\ Ahead(s) = {}
 
-(* ---- the observable view of the document: per position the identity class, key and plaintext ---- *)
+(* ---- the observable view of a document: per position the identity class, key and plaintext ---- *)
 ClassOf(bind, p) == MinOf({q \in 1..Len(bind) : bind[q] = bind[p]})
 View(heap, bind) == [p \in 1..Len(bind) |-> [o |-> ClassOf(bind, p), key |-> heap[bind[p]].key, pt |-> heap[bind[p]].pt]]
+
+(* ---- Decrypt: what the tool makes of the command's output ---- *)
+\* the plaintext of an object as the tool holds it after reading the output; 0 - pt stands for "pt without its
+\* trailing white space" (a different plaintext)
+Taken(o) == IF ~FixedOutput /\ o.trail = "ws" THEN 0 - o.pt ELSE o.pt
+\* :184 refuses an empty result (both designs: the code is followed here, the documentation is silent)
+Refused(o) == o.trail = "empty" \/ (~FixedOutput /\ o.trail = "allws")
 
 (* ---- Store ---- *)
 Rebound(s) ==
@@ -94,7 +123,8 @@ Rebound(s) ==
   IF FixedStore THEN {p \in 1..NPos(s) : s.bind[p] = s.bind[t]}
   ELSE {p \in 1..NPos(s) : s.bind[p] = s.bind[t] /\ (Slot(s, p).ct = "map" \/ Slot(s, p).cont = Slot(s, t).cont)}
 StoreHeap(s) == Append(s.heap, [head |-> NewHead, key |-> "new", pt |-> s.buf, anc |-> Obj(s, s.tgt).anc,
-                                folded |-> Obj(s, s.tgt).folded, cell |-> Obj(s, s.tgt).cell, enc |-> NewEnc])
+                                folded |-> Obj(s, s.tgt).folded, cell |-> Obj(s, s.tgt).cell, enc |-> NewEnc,
+                                trail |-> IF s.buf < 0 THEN "" ELSE Obj(s, s.tgt).trail])
 StoreBind(s) == [p \in 1..NPos(s) |-> IF p \in Rebound(s) THEN Len(s.heap) + 1 ELSE s.bind[p]]
 
 (* ---- events accepted in s ---- *)
@@ -105,6 +135,7 @@ Expect(s) ==
         ELSE IF Ahead(s) # {} THEN {[e |-> "Find"]}
         ELSE IF s.changed /\ s.backup /\ ~s.backed THEN {[e |-> "Backup"]}
         ELSE IF s.changed /\ ~s.written THEN {[e |-> "Write"]}
+        ELSE IF s.fi < Len(s.files) THEN {[e |-> "NextFile", fi |-> s.fi + 1]}
         ELSE {[e |-> "Exit", status |-> s.status]})
   ELSE IF s.pc = "dec" THEN
        LET o == Obj(s, s.tgt) IN
@@ -115,7 +146,14 @@ Expect(s) ==
   ELSE {}
 
 Apply(s, e) ==
-  CASE e.e = "Find" ->
+  CASE e.e = "NextFile" ->
+         LET d == s.files[e.fi] IN
+         [s EXCEPT !.fi = e.fi, !.done = IF s.fi = 0 THEN @ ELSE Append(@, Closed(s)),
+                   !.doc = d, !.heap = LoadHeap(d), !.bind = LoadBind(d), !.ndec = Zeros(d), !.nenc = Zeros(d),
+                   !.cur = 0, !.panc = "", !.last = 0, !.tgt = 0, !.buf = 0, !.fmt = "",
+                   !.seen = IF ResetSeen THEN {} ELSE @,
+                   !.changed = FALSE, !.backed = FALSE, !.written = FALSE]
+    [] e.e = "Find" ->
          LET p == MinOf(Ahead(s)) IN
          [s EXCEPT !.cur = p, !.last = 0,
                    !.panc = IF Slot(s, p).ct = "seq" THEN Obj(s, p).anc ELSE ""]
@@ -126,9 +164,10 @@ Apply(s, e) ==
                           !.seen = IF e.anc = "" THEN @ ELSE @ \cup {e.anc}]
     [] e.e = "Decrypt" ->
          LET o == Obj(s, s.tgt) IN
-         IF e.ok THEN [s EXCEPT !.pc = "enc", !.buf = o.pt, !.fmt = IF o.folded THEN "block" ELSE "string",
-                                !.ndec[o.cell] = @ + 1]
-         ELSE [s EXCEPT !.pc = "scan", !.status = 3]                              \* :163-166
+         IF e.ok /\ ~Refused(o)
+           THEN [s EXCEPT !.pc = "enc", !.buf = Taken(o), !.fmt = IF o.folded THEN "block" ELSE "string",
+                          !.ndec[o.cell] = @ + 1]
+           ELSE [s EXCEPT !.pc = "scan", !.status = 3]                            \* :163-166, :184-189
     [] e.e = "Encrypt" -> [s EXCEPT !.pc = "store", !.nenc[Obj(s, s.tgt).cell] = @ + 1]
     [] e.e = "Store"   -> [s EXCEPT !.pc = "scan", !.heap = StoreHeap(s), !.bind = StoreBind(s), !.changed = TRUE,
                                     !.buf = 0, !.fmt = ""]
@@ -138,29 +177,43 @@ Apply(s, e) ==
 
 RStep(s, e) == IF e \in Expect(s) THEN Apply(s, e) ELSE [s EXCEPT !.pc = "REJECT"]
 
-(* ---- what the property says (C19 statement), as predicates of a state ---- *)
-Success(s) == s.pc = "Done" /\ s.status = 0
-Secret0(s, p) == Enc(Obj0(s, p))
+(* ---- what the property says (C19 statement): predicates of ONE file f (a closed file or the state itself) ---- *)
+Secret0(f, p) == Enc(Obj0(f, p))
 \* every encrypted value is under the new keys (and hence no longer under the old ones)
-InvAllNew(s) == Success(s) => \A p \in 1..NPos(s) : Enc(Obj(s, p)) => Obj(s, p).key = "new"
-\* ... with the plaintext it had; what was encrypted still is, what was not still is not
-InvPlaintextKept(s) == Success(s) => \A p \in 1..NPos(s) : Obj(s, p).pt = Obj0(s, p).pt /\ Enc(Obj(s, p)) = Secret0(s, p)
+FAllNew(f) == \A p \in 1..NPos(f) : Enc(Obj(f, p)) => Obj(f, p).key = "new"
+\* ... with exactly the plaintext it had; what was encrypted still is, what was not still is not
+FPlaintextKept(f) == \A p \in 1..NPos(f) : Obj(f, p).pt = Obj0(f, p).pt /\ Enc(Obj(f, p)) = Secret0(f, p)
 \* values shared through an anchor are rotated once ...
-InvOncePerCell(s) == Success(s) => \A c \in 1..Len(s.doc.objs) :
-                        IF Enc(s.heap[c]) THEN s.ndec[c] = 1 /\ s.nenc[c] = 1 ELSE s.ndec[c] = 0 /\ s.nenc[c] = 0
+FOncePerCell(f) == \A c \in 1..Len(f.doc.objs) :
+                      IF Enc(f.heap[c]) THEN f.ndec[c] = 1 /\ f.nenc[c] = 1 ELSE f.ndec[c] = 0 /\ f.nenc[c] = 0
 \* ... and stay shared (and nothing else becomes shared); anchors keep their names
-InvStillShared(s) == Success(s) => \A p, q \in 1..NPos(s) :
-                        /\ (s.doc.slots[p].o = s.doc.slots[q].o) <=> (s.bind[p] = s.bind[q])
-                        /\ Obj(s, p).anc = Obj0(s, p).anc
-\* non-encrypted positions are never touched (in any state, whatever the status)
-InvFrame(s) == \A p \in 1..NPos(s) : ~Secret0(s, p) => s.bind[p] = s.doc.slots[p].o
+FStillShared(f) == \A p, q \in 1..NPos(f) :
+                      /\ (f.doc.slots[p].o = f.doc.slots[q].o) <=> (f.bind[p] = f.bind[q])
+                      /\ Obj(f, p).anc = Obj0(f, p).anc
+\* non-encrypted positions are never touched
+FFrame(f) == \A p \in 1..NPos(f) : ~Secret0(f, p) => f.bind[p] = f.doc.slots[p].o
 \* a file holding no encrypted value is neither rewritten nor backed up
-InvNoSecretNoTouch(s) == (\A p \in 1..NPos(s) : ~Secret0(s, p)) => ~s.backed /\ ~s.written /\ ~s.changed
+FNoSecretNoTouch(f) == (\A p \in 1..NPos(f) : ~Secret0(f, p)) => ~f.backed /\ ~f.written /\ ~f.changed
 \* protocol order: the backup is taken before the file is opened for writing, only when asked for
-InvBackupFirst(s) == (s.backed => s.backup /\ s.changed) /\ (s.written /\ s.backup => s.backed)
-                     /\ (s.pc = "Done" => (s.written <=> s.changed))
-\* only an old-key value is ever decrypted successfully; counts never exceed one per cell
-InvAtMostOnce(s) == \A c \in 1..Len(s.doc.objs) : s.ndec[c] <= 1 /\ s.nenc[c] <= s.ndec[c]
+FBackupFirst(f, backup) == (f.backed => backup /\ f.changed) /\ (f.written /\ backup => f.backed)
+\* counts never exceed one per cell
+FAtMostOnce(f) == \A c \in 1..Len(f.doc.objs) : f.ndec[c] <= 1 /\ f.nenc[c] <= f.ndec[c]
+
+(* ---- ... of the whole invocation ---- *)
+Success(s) == s.pc = "Done" /\ s.status = 0
+FilesOf(s) == s.done \o (IF s.fi = 0 THEN <<>> ELSE <<Closed(s)>>)
+AllFiles(s, P(_)) == \A i \in 1..Len(FilesOf(s)) : P(FilesOf(s)[i])
+InvAllNew(s)          == Success(s) => AllFiles(s, FAllNew)
+InvPlaintextKept(s)   == Success(s) => AllFiles(s, FPlaintextKept)
+InvOncePerCell(s)     == Success(s) => AllFiles(s, FOncePerCell)
+InvStillShared(s)     == Success(s) => AllFiles(s, FStillShared)
+\* whatever the status, in every state:
+InvFrame(s)           == AllFiles(s, FFrame)
+InvNoSecretNoTouch(s) == AllFiles(s, FNoSecretNoTouch)
+InvBackupFirst(s)     == AllFiles(s, LAMBDA f : FBackupFirst(f, s.backup))
+                         /\ (\A i \in 1..Len(s.done) : s.done[i].written <=> s.done[i].changed)
+                         /\ (s.pc = "Done" => (s.written <=> s.changed))
+InvAtMostOnce(s)      == AllFiles(s, FAtMostOnce)
 
 Failing(s) ==
   IF ~InvFrame(s) THEN "Frame" ELSE IF ~InvNoSecretNoTouch(s) THEN "NoSecretNoTouch"
